@@ -17,8 +17,8 @@ def entryQuakePlan (args : List String) : String :=
     | some seed, some k, some r =>
       let (cfg, st) := G.run gQuakeCase (seed * 1000003 + k)
       let port := 27500 + k % 3
-      let (p, left) := plan1OfVector r (reply cfg st) vec.toList []
-      let (lq, lf) := leftover1 (reply cfg st) left
+      let (p, left) := plan1OfVector r (reply cfg st) malformedDatagram vec.toList []
+      let (lq, lf) := leftover1 (reply cfg st) malformedDatagram left
       let thm := p.wf r 65535 && (match p.answer with
         | none => true
         | some d => if d == reply cfg st then Spec.wf cfg st else malformed cfg.version d)
